@@ -162,6 +162,19 @@ def g_run(rng, k, n):
         start = rng.randint(48, 100)
         step = rng.choice([1, -1, 2])
         return ["c:%d" % (start + j * step) for j in range(n)]
+    if k in "TF" and rng.random() < 0.5:
+        # alternating booleans: the step of an alternation is 'true' (T - F = F - T = T, T + T = F);
+        # the printer's range_step_fits stops such a run after two values - never compressed
+        first = rng.random() < 0.5
+        return ["T" if (j % 2 == 0) == first else "F" for j in range(n)]
+    if k in "fd" and rng.random() < 0.5:
+        # arithmetic runs of floats / doubles with exactly representable values and steps (floats are
+        # not range-convertible for the printer: printed value by value)
+        start = rng.choice([0.5, 1.5, -2.0, 8.0, 0.25, -7.75, 100.0, 0.0])
+        step = rng.choice([0.5, 1.0, -0.25, 2.0, -1.5, 0.125, 1.0, -1.0])
+        if k == "f":
+            return ["f:%08x" % struct.unpack("<I", struct.pack("<f", start + j * step))[0] for j in range(n)]
+        return ["d:%016x" % struct.unpack("<Q", struct.pack("<d", start + j * step))[0] for j in range(n)]
     v = g_scalar(rng, k)
     return [v] * n
 
@@ -274,7 +287,9 @@ def g_mixed(rng):
                 out += hdr + arr + run
         else:
             out.append(g_scalar(rng, rng.choice("ihcTNsf")))
-    return [v for v in out if "2e2e2e" not in v]
+    # (a string holding "..." is replaced, not dropped: dropping an array element left the array header
+    # with a count larger than the array - an ill-formed list whose printed text the checker rejects)
+    return [("s:6162" if "2e2e2e" in v else v) for v in out]
 
 def gen_struct(rng, tier, dist, n):
     """lists with runs around the compression threshold, arrays, time tags, whole messages"""
